@@ -462,6 +462,7 @@ func runC07(r *Run) {
 	c07FieldlessRecords(r)
 	c07Crc(r)
 	c07ManyBlocks(r)
+	c07PanickingCallback(r)
 	nfiles := r.N(60, 500)
 	for i := 0; i < nfiles; i++ {
 		gf := genFile(r, 8)
